@@ -136,23 +136,28 @@ def make_seq_iter(start):
 WIN = 4
 
 
-def _sparse(base, mask, vals):
+def _sparse(base, mask, vals, rev=False):
+    """sparse block built by the real constructor from a dict whose keys are supplied in ascending (rev False) or
+    descending (rev True) order; the symbolic values are then stored through setValues (the constructor calls
+    value.__class__(), which needs real ints)"""
     from pymodbus.datastore.store import ModbusSparseDataBlock
-    d = {}
+    d, d0 = {}, {}
     for i in range(WIN):
         if mask[i]:
             d[base + i] = vals[i]
     assume(len(d) >= 1)
-    blk = ModbusSparseDataBlock({0: 0})
-    blk.values = d              # state built directly (constructor calls value.__class__())
-    blk.address = min(d)
+    for i in (range(WIN - 1, -1, -1) if rev else range(WIN)):
+        if mask[i]:
+            d0[base + i] = 0
+    blk = ModbusSparseDataBlock(d0)
+    blk.setValues(0, dict(d))
     return blk, d
 
 
 def make_sparse_validate(base):
-    def sparse_validate(m0: bool, m1: bool, m2: bool, m3: bool, v0: int, v1: int, v2: int, v3: int) -> bool:
+    def sparse_validate(m0: bool, m1: bool, m2: bool, m3: bool, v0: int, v1: int, v2: int, v3: int, rev: bool) -> bool:
         mask = [m0, m1, m2, m3]
-        blk, d = _sparse(base, mask, [v0, v1, v2, v3])
+        blk, d = _sparse(base, mask, [v0, v1, v2, v3], rev)
         for address in range(max(0, base - 1), base + WIN + 1):
             for count in range(1, WIN + 2):
                 got = blk.validate(address, count)
@@ -169,7 +174,7 @@ def make_sparse_validate(base):
 
 def make_sparse_rw(base):
     def sparse_rw(m0: bool, m1: bool, m2: bool, m3: bool, v0: int, v1: int, v2: int, v3: int,
-                  n0: int, n1: int, n2: int) -> bool:
+                  n0: int, n1: int, n2: int, rev: bool) -> bool:
         mask = [m0, m1, m2, m3]
         vals = [v0, v1, v2, v3]
         new_all = [n0, n1, n2]
@@ -183,7 +188,7 @@ def make_sparse_rw(base):
                         populated = False
                 if not populated:
                     continue
-                blk, d = _sparse(base, mask, vals)
+                blk, d = _sparse(base, mask, vals, rev)
                 before = dict(d)
                 address = base + off
                 new = new_all[:n]
@@ -360,6 +365,64 @@ def server_del(slaves: Dict[int, int], unit: int, probe: int) -> bool:
         return True
 
 
+def seq_construct(start: int, n: int) -> bool:
+    """the public constructor (not the state-built-directly shortcut): extent and contents as given"""
+    from pymodbus.datastore.store import ModbusSequentialDataBlock
+    assume(0 <= start <= 70000)
+    assume(1 <= n <= 4)
+    vals = [3, 1, 4, 1][:n]             # (the constructor calls values[0].__class__(), which needs real ints)
+    blk = ModbusSequentialDataBlock(start, vals)
+    if blk.address != start or list(blk.values) != vals:
+        return False
+    if blk.default_value != 0:
+        return False
+    single = ModbusSequentialDataBlock(start, 5)
+    return single.address == start and list(single.values) == [5] and bool(single.validate(start, 1)) and not bool(single.validate(start, 2))
+
+
+def sparse_construct(m0: bool, m1: bool, m2: bool, v0: int, v1: int, v2: int) -> bool:
+    """ModbusSparseDataBlock from a dict keeps exactly the given keys; from a list it enumerates from address 0"""
+    from pymodbus.datastore.store import ModbusSparseDataBlock
+    d = {}
+    for k, (m, v) in enumerate(((m0, v0), (m1, v1), (m2, v2))):
+        if m:
+            d[10 + 3 * k] = int(v)
+    assume(len(d) >= 1)
+    blk = ModbusSparseDataBlock(dict.fromkeys(d, 7))      # (the constructor calls value.__class__(), which needs real ints)
+    if dict(blk.values) != dict.fromkeys(d, 7) or blk.default_value != 0:
+        return False
+    blk.setValues(0, dict(d))
+    if dict(blk.values) != d:
+        return False
+    for a in (9, 10, 11, 12, 13, 14, 15, 16, 17):
+        if bool(blk.validate(a, 1)) != (a in d):
+            explain("validate(%r) on keys %r", a, sorted(d))
+            return False
+    lst = ModbusSparseDataBlock([3, 1, 4])
+    if dict(lst.values) != {0: 3, 1: 1, 2: 4}:
+        return False
+    blk.reset()
+    if not isinstance(blk.values, dict) or sorted(blk.values.keys()) != sorted(d.keys()):
+        explain("reset changed the key set / turned the address map into %s", type(blk.values).__name__)
+        return False
+    return all(x == blk.default_value for x in blk.values.values())
+
+
+def slave_reset(v: List[int]) -> bool:
+    """ModbusSlaveContext.reset() restores every table to its default value and keeps every extent"""
+    from pymodbus.datastore import ModbusSlaveContext
+    assume(len(v) == 4)
+    blocks = {k: _seq(3, [int(x) + i for x in v]) for i, k in enumerate("dcih")}
+    for b in blocks.values():
+        b.default_value = 0
+    ctx = ModbusSlaveContext(di=blocks["d"], co=blocks["c"], ir=blocks["i"], hr=blocks["h"])
+    ctx.reset()
+    for k in "dcih":
+        if blocks[k].address != 3 or list(blocks[k].values) != [0, 0, 0, 0]:
+            return False
+    return True
+
+
 def obligations(tier):
     T = 60 if tier == "quick" else 300
     seqb = "start 0..70000, block length 1..%d, contents/address/count arbitrary ints" % MAXLEN
@@ -386,6 +449,9 @@ def obligations(tier):
                            bounds="addressed table: start 0..70000, length 1..4, address 0..65535, count 1..4; other three tables fixed decoys",
                            timeout=T))
     obl += [
+        Obl("seq.construct", seq_construct, bounds="public constructor: start 0..70000 symbolic, 1..4 (fixed) values; scalar form", timeout=T),
+        Obl("sparse.construct", sparse_construct, bounds="sparse block from a dict over any non-empty subset of {10, 13, 16} and from a list; reset keeps the key set", timeout=T),
+        Obl("slave.reset", slave_reset, bounds="four 4-cell tables with symbolic contents", timeout=T),
         Obl("server.single", server_single, bounds="unit ids 0..255", timeout=T),
         Obl("server.multi.get", server_multi, bounds="<= 3 hosted ids in 0..247 (symbolic dict), probed id 0..255", timeout=T),
         Obl("server.multi.set", server_set, bounds="<= 2 hosted ids, registered id -3..300, probe 0..255", timeout=T),
